@@ -37,6 +37,8 @@ type val struct {
 	b    bool         // for vBool when known
 	bk   bool         // bool known
 	lit  *ast.FuncLit // a local function literal (inlined when called)
+	cmp  string       // for vBool with lin: the comparison `lin cmp 0` it stands for
+	cnam string       // … and, when one side is a named constant of an enumeration type, that name
 }
 
 func unk(desc string) val { return val{kind: vUnknown, desc: desc} }
@@ -649,6 +651,31 @@ func (se *symExec) execAssign(x *ast.AssignStmt, st *sstate) []*sstate {
 }
 
 // canon renders an expression with the handler's parameter names normalised.
+// enumConst: the first of the expressions that names a constant of a named (enumeration-like) type, as written.
+func (se *symExec) enumConst(es ...ast.Expr) string {
+	for _, e := range es {
+		var id *ast.Ident
+		switch x := unparen(e).(type) {
+		case *ast.Ident:
+			id = x
+		case *ast.SelectorExpr:
+			id = x.Sel
+		}
+		if id == nil {
+			continue
+		}
+		if c, ok := se.info.Uses[id].(*types.Const); ok {
+			if _, named := c.Type().(*types.Named); named {
+				if c.Pkg() != nil && c.Pkg() != se.p.Types {
+					return c.Pkg().Name() + "." + c.Name()
+				}
+				return c.Name()
+			}
+		}
+	}
+	return ""
+}
+
 func (se *symExec) canon(e ast.Expr) string {
 	s := exprStr(e)
 	repl := map[string]string{}
@@ -967,7 +994,7 @@ func (se *symExec) eval(e ast.Expr, st *sstate) []ev {
 					ix := r.v.String()
 					if r.v.kind == vInt && !r.v.lin.isConst() {
 						ix = "*" // an element selected by a loop index
-						if s, ok := r.v.lin.singleSym(); !ok || !strings.HasPrefix(s, "loop:") {
+						if s, ok := r.v.lin.singleSym(); !ok || !(strings.HasPrefix(s, "loop:") || strings.HasPrefix(s, "idx(")) {
 							ix = r.v.lin.String()
 						}
 					}
@@ -1086,7 +1113,7 @@ func (se *symExec) binop(x *ast.BinaryExpr, l, r val) val {
 				}
 				return val{kind: vBool, bk: true, b: b}
 			}
-			return val{kind: vBool, desc: se.canon(x), lin: d}
+			return val{kind: vBool, desc: se.canon(x), lin: d, cmp: x.Op.String(), cnam: se.enumConst(x.X, x.Y)}
 		}
 		return unk(se.canon(x))
 	}
@@ -1319,8 +1346,14 @@ func (se *symExec) branch(cond ast.Expr, st *sstate) (tr, fa []*sstate) {
 		if r.v.kind == vBool && r.v.desc != "" && identOf(cond) != nil {
 			cs = r.v.desc // a flag variable is shown as the test that produced it
 		}
-		t.conds = append(t.conds, cs)
-		f.conds = append(f.conds, "!("+cs+")")
+		if r.v.kind == vBool && r.v.lin != nil && negOp[r.v.cmp] != "" {
+			// an integer comparison (or a flag holding one): canonical linear form, whatever the way it is written
+			t.conds = append(t.conds, linCondNamed(r.v.lin, r.v.cmp, r.v.cnam))
+			f.conds = append(f.conds, linCondNamed(r.v.lin, negOp[r.v.cmp], r.v.cnam))
+		} else {
+			t.conds = append(t.conds, cs)
+			f.conds = append(f.conds, "!("+cs+")")
+		}
 		// refine: !(e > 0) for a non-negative quantity (masked bit-field, length) means e == 0
 		if b, ok := cond.(*ast.BinaryExpr); ok && b.Op == token.GTR && r.v.kind == vBool && r.v.lin != nil {
 			if sym, ok := r.v.lin.singleSym(); ok && nonNegSym(sym) {
@@ -1454,16 +1487,21 @@ func (se *symExec) execSwitch(x *ast.SwitchStmt, st *sstate) (fall []*sstate, re
 						}
 						t := remaining.clone()
 						t.eqs = append(t.eqs, d)
-						t.conds = append(t.conds, se.canon(x.Tag)+" == "+se.canon(ce))
+						cn := se.enumConst(ce)
+						t.conds = append(t.conds, linCondNamed(d, "==", cn))
 						runFrom(i, t)
 						remaining.nes = append(remaining.nes, d)
-						remaining.conds = append(remaining.conds, se.canon(x.Tag)+" != "+se.canon(ce))
+						remaining.conds = append(remaining.conds, linCondNamed(d, "!=", cn))
 						continue
 					}
 					t := remaining.clone()
-					t.conds = append(t.conds, se.canon(x.Tag)+" == "+se.canon(ce))
+					tagS := se.canon(x.Tag)
+					if tagv.kind == vUnknown && tagv.desc != "" && tagv.lit == nil && se.emitMode {
+						tagS = tagv.desc // a local holding an access path is shown as that path
+					}
+					t.conds = append(t.conds, tagS+" == "+se.canon(ce))
 					runFrom(i, t)
-					remaining.conds = append(remaining.conds, se.canon(x.Tag)+" != "+se.canon(ce))
+					remaining.conds = append(remaining.conds, tagS+" != "+se.canon(ce))
 				} else {
 					tr, fa := se.branch(ce, remaining)
 					for _, t := range tr {
@@ -1659,7 +1697,7 @@ func (se *symExec) execRange(x *ast.RangeStmt, st *sstate) (fall []*sstate, rets
 		bind := map[types.Object]val{}
 		if id := identOf(x.Key); id != nil && id.Name != "_" {
 			if o := se.info.Defs[id]; o != nil {
-				bind[o] = val{kind: vInt, lin: linSym("loop:" + id.Name + "@" + xd)}
+				bind[o] = val{kind: vInt, lin: linSym("idx(" + xd + ")")}
 			}
 		}
 		if id := identOf(x.Value); id != nil && id.Name != "_" {
@@ -1719,7 +1757,7 @@ func (se *symExec) loopCommon(pos token.Pos, body *ast.BlockStmt, whole ast.Node
 	rets = append(rets, r...)
 	after := entry.clone()
 	for _, o := range se.assignedIn(whole) {
-		after.vars[o] = unk("after-loop")
+		after.vars[o] = unk("after-loop:" + o.Name())
 	}
 	if se.emitMode {
 		var alts []loopAlt
@@ -1922,7 +1960,11 @@ func (se *symExec) evalCallMulti(call *ast.CallExpr, st *sstate) []pathResult {
 				if fn.Name() == "ExceptionNewf" && fn.Pkg() != nil && fn.Pkg().Path() == modPath+"/py" {
 					rets[i] = val{kind: vErrNonNil}
 				} else if b, ok := rt.Underlying().(*types.Basic); ok && b.Info()&types.IsInteger != 0 {
-					rets[i] = val{kind: vInt, lin: linSym(se.getterSym(fn, call, c.recv))}
+					sym := se.getterSym(fn, call, c.recv)
+					if nres > 1 && strings.HasPrefix(sym, "ret:") {
+						sym = fmt.Sprintf("ret#%d:%s", i, strings.TrimPrefix(sym, "ret:"))
+					}
+					rets[i] = val{kind: vInt, lin: linSym(sym)}
 				}
 			}
 		}
@@ -1968,6 +2010,9 @@ func (se *symExec) worthInlining(fn *types.Func) bool {
 		return false
 	}
 	res := se.inlineAll // the compiler's table helpers are all inlined
+	if isNewFunc(FuncID(fn)) {
+		res = true // a helper introduced since the reference was written: look through it
+	}
 	if !res {
 		res = se.mentionsStackShallow(fd)
 	}
